@@ -12,6 +12,7 @@ use crate::Program;
 use std::borrow::Cow;
 
 use deno_ast::view as ast_view;
+use deno_ast::MediaType;
 use deno_ast::SourcePos;
 use deno_ast::SourceRange;
 use deno_ast::SourceRanged;
@@ -159,17 +160,24 @@ impl NoNodeGlobalsHandler {
     range: SourceRange,
     fix_kind: FixKind,
   ) {
-    let change = self.fix_change(ctx, range, fix_kind);
+    // An import declaration is a syntax error in a CommonJS file.
+    let fixes = if matches!(fix_kind, FixKind::Import { .. })
+      && ctx.media_type() == MediaType::Cjs
+    {
+      vec![]
+    } else {
+      vec![LintFix {
+        description: fix_kind.description().into(),
+        changes: vec![self.fix_change(ctx, range, fix_kind)],
+      }]
+    };
 
     ctx.add_diagnostic_with_fixes(
       range,
       CODE,
       MESSAGE,
       Some(fix_kind.hint().to_string()),
-      vec![LintFix {
-        description: fix_kind.description().into(),
-        changes: vec![change],
-      }],
+      fixes,
     );
   }
 }
@@ -179,13 +187,24 @@ impl Handler for NoNodeGlobalsHandler {
     if !NODE_GLOBALS.contains_key(id.sym()) {
       return;
     }
+    // `<global />` is an intrinsic JSX element name, not a reference.
+    if id.sym().starts_with(|c: char| c.is_ascii_lowercase())
+      && (id.parent().is::<ast_view::JSXOpeningElement>()
+        || id.parent().is::<ast_view::JSXClosingElement>())
+    {
+      return;
+    }
     if id.ctxt() == ctx.unresolved_ctxt() {
       self.add_diagnostic(ctx, id.range(), NODE_GLOBALS[id.sym()]);
     }
   }
 
   fn import_decl(&mut self, imp: &ast_view::ImportDecl, _ctx: &mut Context) {
-    self.most_recent_import_range = Some(imp.range());
+    // Only a top level import is a place to put a new import behind: one inside
+    // `declare module "x" { ... }` is not in scope of the rest of the file.
+    if imp.parent().is::<ast_view::Module>() {
+      self.most_recent_import_range = Some(imp.range());
+    }
   }
 }
 
